@@ -340,6 +340,50 @@ def unary_job(arg):
     return rep
 
 
+def lookup(table):
+    return ("lookup", sorted(table.items(), key=repr))
+
+
+def dictkey_job(arg):
+    """Direct kept calls whose argument is a dict: keys that differ only by type (1 / '1', None / 'None', 1.5 / '1.5',
+    (1, 2) / '(1, 2)') are different bindings - each call returns what plain execution returns."""
+    import dds
+    from dds import _api
+    from vp.capstore import CapturingStore
+
+    rep = core.Report("C13")
+    dds.accept_module("checks")
+    dds.set_store("memory")
+    cs = CapturingStore(_api._store_var)
+    dds.set_store(cs)
+    owner = {}
+    tables = []
+    for k in (1, None, 1.5, (1, 2), 0, False):
+        tables += [{k: "x"}, {str(k): "x"}, {k: "x", "other": 1}, {str(k): "x", "other": 1}]
+    for rnd in (0, 1):
+        for t in tables:
+            cs.clear()
+            rep.evaluations += 1
+            rep.count("calls_direct")
+            rep.count("calls_with_dict_argument")
+            want = lookup(t)
+            try:
+                got = dds.keep("/c13d/p", lookup, t)
+            except BaseException as e:
+                rep.violate("keep(/c13d/p, lookup, %r) raised %s: %s" % (t, type(e).__name__, str(e)[:120]), {"dictkey": repr(t)}, mechanism="keep-raised")
+                continue
+            if V.canon_doc(got) != V.canon_doc(want):
+                rep.violate("keep(/c13d/p, lookup, %r) returned %r, plain execution gives %r (the result of a dict with other keys was served)" % (t, got, want), {"dictkey": repr(t)}, mechanism="dict-key-type-collision")
+            sg = (cs.last_sync() or {}).get("/c13d/p")
+            ck = repr(V.canon_doc(want))
+            if sg is not None:
+                if sg in owner and owner[sg] != ck:
+                    rep.violate("kept calls binding %s and %s (dict arguments) share one signature" % (owner[sg], ck), {"dictkey": repr(t)}, mechanism="dict-key-type-collision")
+                owner.setdefault(sg, ck)
+    rep.nontriv(("c13dictkey",))
+    return rep
+
+
 LAYOUT_DECORATIONS = [
     ("plain", '    """Summary line."""\n    # a comment\n'),
     ("docstring-with-U+2028-twice", '    """Summary\u2028second line\u2028third line."""\n'),
@@ -532,7 +576,7 @@ def run(tier, seed):
                 bs = list(dict.fromkeys(dflt + allb[:k]))
             jobs.append((shape, idx, bs, scratch))
         results = core.fork_map(job, jobs, timeout=600)
-        nres = core.fork_map(lambda j: {"c": class_job, "n": nested_job, "u": unary_job, "l": layout_job}[j[0]](j[1]), [("n", (scratch, 0)), ("c", (scratch, 1)), ("u", (scratch, 2)), ("l", (scratch, 3))], timeout=600)
+        nres = core.fork_map(lambda j: {"c": class_job, "n": nested_job, "u": unary_job, "l": layout_job, "d": dictkey_job}[j[0]](j[1]), [("n", (scratch, 0)), ("c", (scratch, 1)), ("u", (scratch, 2)), ("l", (scratch, 3)), ("d", (scratch, 4))], timeout=600)
     for r in nres:
         if isinstance(r, core.JobFailed):
             rep.inconclusive.append("nested job: %r" % (r,))
